@@ -109,6 +109,12 @@ def run(ctx, w):
     fresh_screen_pen(ctx, w, S, R)
     from rules import prims
     prims.ctor_semantics(ctx, w, S, "G10")
+    # rows vacated by a scroll are "blanked afterwards" too: they carry the pen handed to the primitive (all branches)
+    prims.scroll_primitives(ctx, w, S, "G11")
+    ctx.floor("G11", 500, "scroll primitive evaluations")
+    # colours survive the writer -> decoder round trip (bright colours 90-107, index 16, 255, RGB)
+    from rules import c11
+    shared.embed(ctx, w, c11.pen_roundtrip)
     # parameters handed to the decoder are exactly those of the current sequence
     # (no stale sub-parameters): the memoryless-reset rules of C03
     c03.run_t7(ctx, w, tables.parser_tables(w))
@@ -215,8 +221,82 @@ def decode_rules(ctx, w):
         ctx.missing_anchor("G1c", fn)
 
 
+def apply_semantics(ctx, w, S, R, rule):
+    """The SGR handler evaluated for each single operation on an all-clear and an all-set pen: exactly the operation's
+    component changes (observed through the pen's public accessors), to the documented value."""
+    from rules import c11
+    ctx.rule(rule, "each SGR operation, applied by the handler to an all-clear and to an all-set pen, changes exactly its own component (observed through foreground / background / intensity / is_* accessors)")
+    hs = w.handler("Sgr")
+    if len(hs) != 1:
+        ctx.missing_anchor(rule, "single SGR handler")
+        return None
+    h = hs[0]
+    attrs = ["italic", "underline", "blink", "inverse", "strikethrough"]
+    col = ("v", "color::Color::Indexed", (7,))
+
+    def obs(pen):
+        it = c11.ApplyInterp(w.facts)
+        d = pen[2]
+        out = {"foreground": d["foreground"], "background": d["background"], "intensity": d["intensity"]}
+        for a in attrs:
+            out[a] = it.call_fn("pen::Pen::is_" + a, [pen])
+        return out
+
+    def base(all_set):
+        p = c11.default_pen()
+        if all_set:
+            p[2]["foreground"] = H.some(("v", "color::Color::Indexed", (1,)))
+            p[2]["background"] = H.some(("v", "color::Color::Indexed", (2,)))
+            p[2]["intensity"] = ("v", "pen::Intensity::Faint")
+            it = c11.ApplyInterp(w.facts)
+            for a in attrs:
+                it.call_fn("pen::Pen::set_" + a, [p])
+        return p
+    ref = {"SetBoldIntensity": ("intensity", ("v", "pen::Intensity::Bold")), "SetFaintIntensity": ("intensity", ("v", "pen::Intensity::Faint")), "ResetIntensity": ("intensity", ("v", "pen::Intensity::Normal")),
+           "SetForegroundColor": ("foreground", H.some(col)), "ResetForegroundColor": ("foreground", H.NONE_V),
+           "SetBackgroundColor": ("background", H.some(col)), "ResetBackgroundColor": ("background", H.NONE_V)}
+    for a in attrs:
+        ref["Set" + a.capitalize()] = (a, True)
+        ref["Reset" + a.capitalize()] = (a, False)
+    okall = True
+    n = 0
+    try:
+        for v in w.facts.enum_variants("parser::SgrOp") or []:
+            for all_set in (False, True):
+                pen = base(all_set)
+                before = obs(pen)
+                payload = bool([x for x in w.facts.adts["parser::SgrOp"]["variants"] if x["name"] == v and x.get("fields")])
+                op = ("v", "parser::SgrOp::" + v, (col,)) if payload else ("v", "parser::SgrOp::" + v)
+                term = ("obj", S.term_ty, {R["pen"]: pen})
+                c11.ApplyInterp(w.facts).call_fn(h, [term, ("s", (op,))])
+                after = obs(term[2][R["pen"]])
+                if v == "Reset":
+                    want = obs(c11.default_pen())
+                elif v in ref:
+                    want = dict(before)
+                    want[ref[v][0]] = ref[v][1]
+                else:
+                    want = None
+                n += 1
+                if want is None or after != want:
+                    okall = False
+                    diff = {k: (before[k], after[k]) for k in after if after[k] != (want or before).get(k)} if want else "no reference for this operation"
+                    ctx.violation(rule, "%s/%s" % (v, "set" if all_set else "clear"), "SgrOp::%s applied to an all-%s pen: %s (component: before -> after); the reference changes only %s" %
+                                  (v, "set" if all_set else "clear", diff, ref.get(v, ("the whole pen",))[0]), loc=w.fn_loc(h))
+    except (H.Unsupported, KeyError, IndexError, TypeError) as ex:
+        ctx.note("semantic form of the apply table not applicable: %r" % (ex,))
+        return None
+    if okall:
+        ctx.ok(rule, "all", {"cases": n})
+        ctx.rule_counts[rule] = n
+    return okall
+
+
 def apply_rules(ctx, w, S, R):
     E = w.E
+    ctx0 = ctx
+    sem = apply_semantics(ctx0, w, S, R, "G2s")
+    ctx = shared.Deferred(ctx0, {"G2"}, sem)
     ctx.rule("G2", "each SGR operation updates exactly its component of the pen (attributes are independent)")
     pen = R["pen"]
     attr = {"Italic": "italic", "Underline": "underline", "Blink": "blink", "Inverse": "inverse", "Strikethrough": "strikethrough"}
@@ -264,7 +344,8 @@ def apply_rules(ctx, w, S, R):
             ctx.check(ok, "G2", v, "SgrOp::%s: the handler %s; the reference update is %s %s" % (v, got, kind, arg), loc="%s:%s" % (w.fn_loc(h).rsplit(":", 1)[0], arm.get("line")),
                       sample={"op": v, "update": got})
     ctx.floor("G2", 18, "SGR operations")
-    # frame of the whole handler
+    # frame of the whole handler (not covered by the semantic form: always enforced)
+    ctx = ctx0
     shared.frame(ctx, w, "G2", "Sgr", [(pen,)], "SGR changes nothing but the pen")
     # Pen::default() is the all-clear pen
     fn = "<pen::Pen as core::default::Default>::default"
